@@ -315,6 +315,61 @@ pub fn features_of(files: &[SrcFile], builtins: &BTreeSet<String>) -> Vec<String
     if seen.values().any(|&c| c > 1) {
         feats.insert("duplicate_top_level_name".to_string());
     }
+    // F12: a value whose written type is a union used as an element of a collection literal
+    {
+        let mut union_vars: BTreeSet<String> = BTreeSet::new();
+        for f in files {
+            let chars: Vec<char> = f.text.chars().collect();
+            for i in 0..chars.len() {
+                if chars[i] == ':' {
+                    let mut j = i + 1;
+                    while j < chars.len() && chars[j] == ' ' {
+                        j += 1;
+                    }
+                    if j < chars.len() && chars[j] == '{' {
+                        // the identifier before the colon
+                        let mut k = i;
+                        while k > 0 && is_ident_char(chars[k - 1]) {
+                            k -= 1;
+                        }
+                        if k < i {
+                            union_vars.insert(chars[k..i].iter().collect());
+                        }
+                    }
+                }
+            }
+        }
+        if !union_vars.is_empty() {
+            for f in files {
+                for line in f.text.lines() {
+                    let start = line.find(":=").map(|p| p + 2).or_else(|| line.find("=>").map(|p| p + 2)).unwrap_or(0);
+                    let rest: Vec<char> = line[start..].chars().collect();
+                    let mut depth = 0;
+                    let mut i = 0;
+                    while i < rest.len() {
+                        match rest[i] {
+                            '[' | '{' => depth += 1,
+                            ']' | '}' => depth -= 1,
+                            c if is_ident_start(c) && (i == 0 || !is_ident_char(rest[i - 1])) => {
+                                let mut j = i;
+                                while j < rest.len() && is_ident_char(rest[j]) {
+                                    j += 1;
+                                }
+                                let w: String = rest[i..j].iter().collect();
+                                if depth > 0 && union_vars.contains(&w) {
+                                    feats.insert("union_typed_value_in_collection_literal".to_string());
+                                }
+                                i = j;
+                                continue;
+                            }
+                            _ => {}
+                        }
+                        i += 1;
+                    }
+                }
+            }
+        }
+    }
     // F8/F9: a function whose written return type is a union (`) -> {A, B}`)
     for f in files {
         for line in f.text.lines() {
@@ -383,15 +438,41 @@ pub fn features_of(files: &[SrcFile], builtins: &BTreeSet<String>) -> Vec<String
                     }
                     if type_pos && k < chars.len() && chars[k] == '}' {
                         let inner: String = chars[i + 1..k].iter().collect();
-                        let members: Vec<String> = inner
-                            .split(',')
-                            .filter_map(|m| ident_at(m.trim()).map(|s| s.to_string()))
-                            .collect();
-                        for a in &members {
-                            let mut anc = BTreeSet::new();
-                            ancestors(a, &by_name, 0, &mut anc);
-                            if members.iter().any(|b| b != a && anc.contains(b)) {
-                                feats.insert("union_of_related_types".to_string());
+                        // members split at top-level commas; every identifier inside a member
+                        // counts (List[Int] vs List[Float] are related through their elements)
+                        let mut members: Vec<Vec<String>> = vec![];
+                        let mut depth2 = 0;
+                        let mut cur = String::new();
+                        for ch in inner.chars() {
+                            match ch {
+                                '[' | '(' | '{' => {
+                                    depth2 += 1;
+                                    cur.push(' ');
+                                }
+                                ']' | ')' | '}' => {
+                                    depth2 -= 1;
+                                    cur.push(' ');
+                                }
+                                ',' if depth2 == 0 => {
+                                    members.push(idents_of(&cur));
+                                    cur.clear();
+                                }
+                                _ => cur.push(ch),
+                            }
+                        }
+                        members.push(idents_of(&cur));
+                        for (i, a) in members.iter().enumerate() {
+                            for (j, b) in members.iter().enumerate() {
+                                if i == j {
+                                    continue;
+                                }
+                                for x in a {
+                                    let mut anc = BTreeSet::new();
+                                    ancestors(x, &by_name, 0, &mut anc);
+                                    if b.iter().any(|y| y != x && anc.contains(y)) {
+                                        feats.insert("union_of_related_types".to_string());
+                                    }
+                                }
                             }
                         }
                     }
@@ -453,6 +534,25 @@ pub fn features_of(files: &[SrcFile], builtins: &BTreeSet<String>) -> Vec<String
         }
     }
     feats.into_iter().collect()
+}
+
+fn idents_of(s: &str) -> Vec<String> {
+    let mut out = vec![];
+    let chars: Vec<char> = s.chars().collect();
+    let mut i = 0;
+    while i < chars.len() {
+        if is_ident_start(chars[i]) && (i == 0 || !is_ident_char(chars[i - 1])) {
+            let mut j = i;
+            while j < chars.len() && is_ident_char(chars[j]) {
+                j += 1;
+            }
+            out.push(chars[i..j].iter().collect());
+            i = j;
+        } else {
+            i += 1;
+        }
+    }
+    out
 }
 
 pub fn single_program(s: &Sample, annotate: bool) -> Program {
